@@ -5,15 +5,17 @@ written to a temp dir and removed after the case) loaded by the REAL `load_all_d
 detection / tracking / sensing x {base_link, map} x merge on/off; the canonicalised frames are compared
 with the Lean model `PEval.Dataset.loadDataset` run on the same tables (exact rationals).  The oracle is
 the property text evaluated on the loaded frames against the generator's own tables with an
-independent numpy reference (no use of the model): counts, order, timestamps, per-object fields, pose
-identities (also through the real transform objects stored with the frame), tracked history, and the averaged
-traffic-light camera transform stored with every frame (fixed finding C16-N1: cameras calibrated q and -q).
+independent numpy reference (no use of the model): counts, order of the frames, timestamps, per-object fields (objects
+matched by instance id, no order), pose identities (also through the real transform objects stored with the frame), and
+for tracking tasks the history as a gap-free run of the instance's preceding annotations, nearest first.
 
-Besides the 3-D tasks the same directories (plus `object_ann.json` / `surface_ann.json`) are loaded for the 2-D
-tasks (detection2d / tracking2d / classification2d / fp_validation2d, label families autoware and traffic_light, any
-list of camera frame ids) and compared with `PEval.Dataset.loadDataset2D`; velocities (`_get_box_velocity`, the
-devkit's `box_velocity` for the tracked states) are compared within 1e-9, the model being handed the exact value
-of the float `1e-6 * timestamp` of every sample.
+What the model ALSO describes but the property does not state is compared softly - a case on which only such things
+differ is a counted "skip", never a violation: the 2-D tasks (`PEval.Dataset.loadDataset2D`) and fp_validation (outside
+the quantifier), the averaged traffic-light camera transform (fixed finding C16-N1 is "loading must not raise", which the
+oracle judges), how far back a history reaches (devkit: < 3.15 s, at most 6 states), visibility strings that are no
+levels, the loader's named rejections of ill-formed datasets, the contract families, velocity decisions at the 1.5 s /
+3 s bounds.  Velocities (not in the text) are compared model-vs-code within max(1e-9, 4 ulp(t) / smallest sample gap).
+Exception classes are never compared (raised vs returned only); frame names are not compared.
 
 A case is a plain JSON value: the tables in an abstract spelling (rationals as "p/q" strings, rotations as
 four rationals a/n, b/n, c/n, d/n with a^2+b^2+c^2+d^2 = n^2) plus the list of configurations to load.
@@ -137,8 +139,9 @@ ASSUMPTIONS = [
     "flagged `vel_direct`; the frame-level comparison of such a case accepts the load model's 0 against Python's inf / nan",
     "well-formed datasets only: tokens unique per table, every referenced token resolves, annotation prev/next link the "
     "annotations of one instance in sample order, sample table in time order; two deliberately ill-formed shapes are "
-    "included because the loader names them: no sample at all (DatasetLoadingError) and no LIDAR_TOP/LIDAR_CONCAT "
-    "key frame (ValueError)",
+    "included because the loader names them: no sample at all (today DatasetLoadingError; the oracle accepts any exception or "
+    "zero frames) and no LIDAR_TOP/LIDAR_CONCAT key frame (today ValueError; outside the domain, no claim); the exception "
+    "class is nowhere demanded",
     "the lidar that the loader picks is calibrated at the ego origin (identity calibrated_sensor), as the property "
     "states for T4 data; other sensors are arbitrary",
     "numbers of the written tables: integer-valued components of translation / size / rotation vectors are written as JSON "
@@ -146,24 +149,29 @@ ASSUMPTIONS = [
     "make that frequent; one exception: an annotation translation is written with integers only when every ego translation "
     "of the dataset is integral (an all-integer box centre makes the devkit's in-place Box.translate by a float ego "
     "translation raise a numpy casting error - devkit behaviour, outside the property)",
-    "tracked history is compared as the loader exposes it: annotated GLOBAL poses of the preceding annotations of the "
-    "instance, also when the objects themselves are requested in base_link",
+    "tracked history: annotated GLOBAL poses of the preceding annotations of the instance (also when the objects themselves are "
+    "requested in base_link), nearest first and without a gap; HOW FAR BACK it reaches (devkit: < 3 s + 0.15 s, at most 6 states) "
+    "is not in the text: the oracle accepts every prefix, and demands the nearest state only when the instance is annotated in the "
+    "immediately preceding sample at most 1 s earlier; a history on non-tracking tasks is not judged",
     "velocities (current: _get_box_velocity, tracked: box_velocity) are not part of the property text: they are "
-    "compared model-vs-code (1e-9) but not judged by the oracle; prev/next neighbours lie in other samples (dt != 0)",
-    "fp_validation and the 2-D tasks are outside the property's quantifier (detection/tracking/sensing): fp_validation is "
-    "compared model-vs-code only; for 2-D the oracle reads the statement on the 2-D annotations of the requested "
-    "cameras (one frame per sample with its timestamp; one object per object_ann carrying instance id / regulatory "
-    "element id, converted label, attributes, camera frame id, truncated ROI) and leaves merged traffic lights to the "
-    "correspondence",
+    "compared model-vs-code within max(1e-9, 4 ulp(t) / smallest sample gap) - every float spelling of the time difference "
+    "passes - but not judged by the oracle; where two samples are exactly 1.5 s / 3 s apart the `too far apart` decision "
+    "depends on that spelling (counted skip); prev/next neighbours lie in other samples (dt != 0); the private "
+    "_get_box_velocity is resolved by name and dropped from the run when absent (histogram unobservable:_get_box_velocity)",
+    "fp_validation and the 2-D tasks are outside the property's quantifier (detection/tracking/sensing): not judged by the "
+    "oracle; compared model-vs-code, a disagreement there is a counted skip",
+    "visibility: the documented levels (full / most / partial / none / not available and the aliases v0-40 .. v80-100) are "
+    "judged; other strings ('v10-20', '', 'FULL', 'unknown') are no visibility levels: no claim (today UNAVAILABLE, compared "
+    "with the model softly), also when loading such a dataset raises",
+    "object order inside a frame, attribute order and frame names are not stated: objects are matched by instance id, "
+    "attributes compared as multisets, frame names not compared",
     "every sensor channel is a FrameID value (else _get_transforms raises ValueError; contract family bad-channel); "
     "contract families are ill-formed or outside the property's domain and are not judged by the oracle",
     "category/attribute names are ASCII",
     "the averaged traffic-light camera (transform CAM_TRAFFIC_LIGHT -> BASE_LINK stored with every frame that has "
-    "transforms) is judged by the oracle against an independent exact reference: position = mean of the calibrated "
-    "translations, rotation = normalised sum of the calibrated rotations after negating those whose 4-D dot product with "
-    "the FIRST traffic-light camera's rotation is negative (q and -q are one rotation); compared as rotation matrices "
-    "(overall sign free); where a dot product is exactly 0 either sign is accepted (a float rounding decides), and the "
-    "model-vs-code comparison of the average is skipped; the CAM_TRAFFIC_LIGHT -> MAP product is not judged separately",
+    "transforms) is NOT an observable of the property (DESIGN section 6: left out): the oracle makes no claim about it; the "
+    "model's average (signs aligned with the FIRST traffic-light camera, as the code does since the C16-N1 fix) is compared "
+    "softly (counted skip), so another averaging rule or not storing the transform does not alarm",
     "fixed finding C16-N1: a ZeroDivisionError on a well-formed dataset (traffic-light cameras calibrated q and -q) is an "
     "ordinary violation again; its replay harness/corpus/c16/n1_tlr_antipodal.json runs first in the corpus",
 ]
@@ -1021,7 +1029,7 @@ def _canon_frames_2d(frames, family):
     want = TrafficLightLabel if family == "traffic_light" else AutowareLabel
     out = []
     for f in frames:
-        fr = {"t": f.unix_time, "name": f.frame_name, "n_transforms": len(f.transforms)}
+        fr = {"t": f.unix_time, "name": getattr(f, "frame_name", None)}
         m = f.transforms.get((FrameID.BASE_LINK, FrameID.MAP))
         fr["ego2map"] = None if m is None else {"pos": [float(x) for x in m.position], "rot": _rotm(m.rotation)}
         fr["tlr2ego"] = _canon_tlr(f)
@@ -1050,15 +1058,14 @@ def _canon_frames(frames):
 
     out = []
     for f in frames:
-        fr = {"t": f.unix_time, "name": f.frame_name, "n_transforms": len(f.transforms)}
+        fr = {"t": f.unix_time, "name": getattr(f, "frame_name", None)}  # the name is informative only (not compared)
         fr["tlr2ego"] = _canon_tlr(f)
         m = f.transforms.get((FrameID.BASE_LINK, FrameID.MAP))
         if m is None:
             fr["ego2map"] = None
         else:
             fr["ego2map"] = {"pos": [float(x) for x in m.position], "rot": _rotm(m.rotation),
-                             "matrix": [[float(x) for x in row] for row in m.matrix],
-                             "src": getattr(m.src, "name", repr(m.src)), "dst": getattr(m.dst, "name", repr(m.dst))}
+                             "matrix": [[float(x) for x in row] for row in m.matrix]}
         objs = []
         for o in f.objects:
             lab = o.semantic_label
@@ -1104,30 +1111,39 @@ def run_impl(case):
     from perception_eval.common.label import LabelConverter
     from perception_eval.common.schema import FrameID
 
+    def err(e):
+        return {"err": type(e).__name__, "mro": [c.__name__ for c in type(e).__mro__ if c not in (object, BaseException, Exception)]}
+
     root = tempfile.mkdtemp(prefix="c16_")
     results = []
     try:
         write_dataset(case, root)
         for task, frame, merge in case["configs"]:
+            # set-up (public constructors) outside the try: only `load_all_datasets` - the call the property is about -
+            # may turn an exception into a recorded outcome; canonicalising the frames is harness work
+            et = EvaluationTask.from_value(task)
+            conv = LabelConverter(et, bool(merge), "autoware")
+            fid = FrameID.from_value(frame)
             try:
-                et = EvaluationTask.from_value(task)
-                conv = LabelConverter(et, bool(merge), "autoware")
                 with contextlib.redirect_stderr(io.StringIO()), contextlib.redirect_stdout(io.StringIO()):
-                    frames = load_all_datasets([root], et, conv, FrameID.from_value(frame))
-                results.append({"frames": _canon_frames(frames)})
+                    frames = load_all_datasets([root], et, conv, fid)
             except Exception as e:
-                results.append({"err": type(e).__name__})
+                results.append(err(e))
+                continue
+            results.append({"frames": _canon_frames(frames)})
         vel_direct = _vel_direct(case, root) if case.get("vel_direct") else None
         results2d = []
         for task, family, merge, frames in case.get("configs2d", []):
+            et = EvaluationTask.from_value(task)
+            conv = LabelConverter(et, bool(merge), family)
             try:
-                et = EvaluationTask.from_value(task)
-                conv = LabelConverter(et, bool(merge), family)
+                fids = [FrameID.from_value(f) for f in frames]  # ids outside FrameID: a recorded rejection (2-D, correspondence only)
                 with contextlib.redirect_stderr(io.StringIO()), contextlib.redirect_stdout(io.StringIO()):
-                    loaded = load_all_datasets([root], et, conv, [FrameID.from_value(f) for f in frames])
-                results2d.append({"frames": _canon_frames_2d(loaded, family)})
+                    loaded = load_all_datasets([root], et, conv, fids)
             except Exception as e:
-                results2d.append({"err": type(e).__name__})
+                results2d.append(err(e))
+                continue
+            results2d.append({"frames": _canon_frames_2d(loaded, family)})
     finally:
         shutil.rmtree(root, ignore_errors=True)
     out = {"results": results, "results2d": results2d}
@@ -1153,26 +1169,32 @@ def _vel_direct(case, root):
 
     import numpy as np
     from nuscenes.nuscenes import NuScenes
-    from perception_eval.common.dataset_utils import _get_box_velocity
+    from perception_eval.common import dataset_utils
 
-    try:
-        with contextlib.redirect_stderr(io.StringIO()), contextlib.redirect_stdout(io.StringIO()):
-            nusc = NuScenes(version="annotation", dataroot=root, verbose=False)
-        res = {}
-        with warnings.catch_warnings(), np.errstate(all="ignore"):
-            warnings.simplefilter("ignore")
-            for a in case["annotations"]:
-                one = {}
-                for key, fn in (("cur", lambda t: _get_box_velocity(nusc, t)), ("dev", lambda t: nusc.box_velocity(t))):
-                    try:
-                        v = fn(a["token"])
-                        one[key] = None if v is None else [_fnum(x) for x in v]
-                    except Exception as e:  # noqa: BLE001
-                        one[key] = {"err": type(e).__name__}
-                res[a["token"]] = one
-        return res
-    except Exception as e:  # noqa: BLE001
-        return {"err": type(e).__name__}
+    # `_get_box_velocity` is a PRIVATE helper of /repo without a public equivalent: resolved by name; when it is gone
+    # (renamed, inlined) the observation is dropped for the run (histogram `unobservable:_get_box_velocity`)
+    gbv = getattr(dataset_utils, "_get_box_velocity", None)
+    with contextlib.redirect_stderr(io.StringIO()), contextlib.redirect_stdout(io.StringIO()):
+        nusc = NuScenes(version="annotation", dataroot=root, verbose=False)
+    res = {}
+    fns = [("dev", lambda t: nusc.box_velocity(t))]
+    if gbv is not None:
+        fns.insert(0, ("cur", lambda t: gbv(nusc, t)))
+    with warnings.catch_warnings(), np.errstate(all="ignore"):
+        warnings.simplefilter("ignore")
+        for a in case["annotations"]:
+            one = {}
+            for key, fn in fns:
+                try:
+                    v = fn(a["token"])
+                except Exception as e:  # noqa: BLE001
+                    one[key] = {"err": type(e).__name__}
+                    continue
+                one[key] = None if v is None else [_fnum(x) for x in v]
+            res[a["token"]] = one
+    if gbv is None:
+        res["_unobservable"] = "_get_box_velocity"
+    return res
 
 
 # ----------------------------------------------------------------------------- the model
@@ -1220,36 +1242,92 @@ def _cmp_pose(tag, pos, rotm, mpos, mrot):
     return None
 
 
-def _cmp_vel(tag, v, m, lenient=False):
+def _vel_tol(case):
+    """relative tolerance of the velocity comparison.  The code divides by `1e-6 * t_last - 1e-6 * t_first` (float
+    seconds, t ~ 1.6e9 s, one ulp = 2.4e-7 s); the mathematically identical `1e-6 * (t_last - t_first)` differs from it by
+    up to 2 ulp(t) ABSOLUTE, i.e. 2 ulp(t) / dt relative (4e-6 for dt = 0.1 s) - velocities are not in the property
+    text, so every float spelling of the same quotient must pass: max(1e-9, 4 ulp(t) / smallest sample gap)."""
+    import math
+
+    ts = sorted({s_["timestamp"] for s_ in case["samples"]})
+    if len(ts) < 2:
+        return 1e-9
+    gap = min(b - a for a, b in zip(ts, ts[1:])) * 1e-6
+    return max(1e-9, 4 * math.ulp(1e-6 * ts[-1]) / gap)
+
+
+def _vel_near_bound(case):
+    """is some pair of samples exactly (within 1 us) 1.5 s or 3 s apart?  There the `time_diff > max_time_diff` decision of
+    the velocity functions depends on the float spelling of the difference (not comparable: counted skip)"""
+    ts = sorted({s_["timestamp"] for s_ in case["samples"]})
+    return any(abs((b - a) - lim) <= 1 for i, a in enumerate(ts) for b in ts[i + 1:] for lim in (1_500_000, 3_000_000))
+
+
+def _cmp_vel(tag, v, m, lenient=False, tol=1e-9):
     if lenient and m is not None and all(Fraction(x) == 0 for x in m) and (v is None or any(x != x or abs(x) == float("inf") for x in v)):
         # `vel_direct` case, division by a zero time difference: the load model (total division) says 0 where Python says
         # inf / nan (all-nan is canonicalised to None); the outcome itself is compared by _compare_vel_direct
         return None
     if (v is None) != (m is None):
         return f"{tag}: velocity impl {v} != model {m}"
-    if v is not None and not _vclose(v, [Fraction(x) for x in m]):
+    if v is not None and not _vclose(v, [Fraction(x) for x in m], tol):
         return f"{tag}: velocity impl {v} != model {[float(Fraction(x)) for x in m]}"
     return None
 
 
+class _Soft:
+    """first disagreement about something the property does not observe / an input outside its quantifier: the
+    comparison goes on, and if nothing inside the property disagrees the case is a counted "skip" """
+
+    def __init__(self):
+        self.why = None
+        self.kind = None
+
+    def note(self, d, kind="other"):
+        if d and self.why is None:
+            self.why = d
+            self.kind = kind
+
+
+# reasons of the counted skips, for the evidence file only (`extra_evidence`); never read by a verdict
+_SKIP_REASONS = {}
+
+
+def _skip(kind):
+    _SKIP_REASONS[kind] = _SKIP_REASONS.get(kind, 0) + 1
+    return "skip"
+
+
+def extra_evidence():
+    return {"skipped_by_reason": dict(sorted(_SKIP_REASONS.items()))}
+
+
+def _rejected_vs_loaded(tag, a, b):
+    """raised-vs-returned only: the text names no exception class ("rejected" at most)"""
+    if ("err" in a) != ("err" in b):
+        return f"{tag}: impl {a.get('err', 'loads')} != model {b.get('err', 'loads')}"
+    return None
+
+
 def _compare_2d(case, out, resp):
+    """2-D tasks are OUTSIDE the property's quantifier (detection / tracking / sensing): every disagreement here is soft"""
     mres = resp.get("results") if resp else None
     if mres is None or len(mres) != len(out["results2d"]):
         return f"model answered {resp}"
     for cfg, a, b in zip(case["configs2d"], out["results2d"], mres):
         tag = "2d:" + "/".join(map(str, cfg))
         if "err" in a or "err" in b:
-            if a.get("err") != b.get("err"):
-                return f"{tag}: impl {a.get('err', 'ok')} != model {b.get('err', 'ok')}"
+            d = _rejected_vs_loaded(tag, a, b)
+            if d:
+                return d
             continue
         fa, fb = a["frames"], b["frames"]
         if len(fa) != len(fb):
             return f"{tag}: {len(fa)} frames != model {len(fb)}"
-        merged = cfg[1] == "traffic_light" and cfg[0] == "classification2d"
         for i, (x, y) in enumerate(zip(fa, fb)):
             t2 = f"{tag} frame {i}"
-            if x["t"] != y["t"] or x["name"] != y["name"]:
-                return f"{t2}: (time, name) impl {(x['t'], x['name'])} != model {(y['t'], y['name'])}"
+            if x["t"] != y["t"]:
+                return f"{t2}: time impl {x['t']} != model {y['t']}"
             if (x["ego2map"] is None) != (y["ego2map"] is None):
                 return f"{t2}: ego2map impl {x['ego2map']} != model {y['ego2map']}"
             if x["ego2map"] is not None:
@@ -1259,14 +1337,15 @@ def _compare_2d(case, out, resp):
             xo, yo = x["objects"], y["objects"]
             if len(xo) != len(yo):
                 return f"{t2}: {len(xo)} objects != model {len(yo)}"
-            if merged:  # python set order: compare as a set keyed by uuid
-                xo, yo = sorted(xo, key=lambda o: o["uuid"]), sorted(yo, key=lambda o: o["uuid"])
+            # no order is stated: compare as a multiset keyed by (uuid, frame, roi)
+            key = lambda o: (str(o["uuid"]), str(o["frame"]), str(o["roi"]))  # noqa: E731
+            xo, yo = sorted(xo, key=key), sorted(yo, key=key)
             for j, (o, m) in enumerate(zip(xo, yo)):
-                if o["vis"] is not None or o["score"] != 1.0:
-                    return f"{t2} object {j}: visibility {o['vis']} / score {o['score']}"
-                for k in ("uuid", "label", "name", "attrs", "roi", "frame", "time"):
+                for k in ("uuid", "label", "name", "roi", "frame", "time"):
                     if o[k] != m[k]:
                         return f"{t2} object {j}: {k} impl {o[k]!r} != model {m[k]!r}"
+                if sorted(o["attrs"]) != sorted(m["attrs"]):
+                    return f"{t2} object {j}: attrs impl {o['attrs']!r} != model {m['attrs']!r}"
     return None
 
 
@@ -1278,9 +1357,10 @@ def _tlr_dots(case):
 
 def _compare_tlr(case, out, resp):
     """the averaged traffic-light camera stored with every loaded frame that has transforms vs the model's
-    (mean position, sum of the sign-aligned rotations): same rotation matrix, same position"""
+    (mean position, sum of the sign-aligned rotations): same rotation matrix, same position.  NOT an observable of the
+    property (DESIGN section 6: left out) - every disagreement here is soft."""
     if resp is None or "tlr" not in resp:
-        return None  # the model's _get_transforms fails: no frame with transforms exists (error kinds are compared elsewhere)
+        return None  # the model's _get_transforms fails: no frame with transforms exists
     m = resp["tlr"]
     frames = [("/".join(map(str, cfg)), i, fr) for cfg, res in zip(case["configs"], out["results"]) for i, fr in enumerate(res.get("frames", []))]
     frames += [("2d:" + "/".join(map(str, cfg)), i, fr) for cfg, res in zip(case.get("configs2d", []), out["results2d"])
@@ -1292,48 +1372,60 @@ def _compare_tlr(case, out, resp):
         if x is not None:
             d = _cmp_pose(f"{tag} frame {i} averaged traffic-light camera", x["pos"], x["rot"], m["pos"], m["rot"])
             if d:
-                # a 4-D dot product of exactly 0 is decided by float rounding in the code: not comparable
-                return "skip" if any(abs(v) < 1e-9 for v in _tlr_dots(case)) else d
+                return d
     return None
 
 
 def compare(case, out, resps):
-    d = _compare_main(case, out, resps)
+    """hard = a disagreement about what C16 states, on an input inside its quantifier -> reported;
+    soft = everything else the model also describes (2-D tasks, fp_validation, the averaged traffic-light camera, the
+    history window / cap, non-levels of visibility, the named rejections of ill-formed datasets, contract families,
+    velocity decisions at the float-dependent bounds) -> the case is a counted "skip" when only such things differ"""
+    if "results" not in out:
+        return f"the real code raised {out.get('err')} outside load_all_datasets"
+    soft = _Soft()
+    d = _compare_main(case, out, resps, soft)
     if d:
-        return d
-    d = _compare_tlr(case, out, resps[2] if len(resps) > 2 else None)
-    if d:
-        return d
+        return _skip("contract-family:" + case["contract"]) if case.get("contract") in NOT_JUDGED else d
+    if case.get("configs2d"):
+        soft.note(_compare_2d(case, out, resps[1] if len(resps) > 1 else None), "2d-task")
+    soft.note(_compare_tlr(case, out, resps[2] if len(resps) > 2 else None), "traffic-light-camera-average")
     if case.get("vel_direct"):
-        return _compare_vel_direct(case, out, resps[3] if len(resps) > 3 else None)
-    return None
+        d = _compare_vel_direct(case, out, resps[3] if len(resps) > 3 else None)
+        if d:
+            return d
+    return _skip(soft.kind) if soft.why else None
 
 
 def _compare_vel_direct(case, out, resp):
     """per annotation: Python's outcome of the two velocity functions against the model's `velocityPy`.  none <-> None / the all-nan
-    vector; finite <-> three numbers within 1e-9; div0 <-> three non-finite components, each inf / -inf / nan by the sign of the
+    vector; finite <-> three numbers within the velocity tolerance; div0 <-> three non-finite components, each inf / -inf / nan by the sign of the
     model's displacement component (`dev`: exactly; `cur`: its displacement went through a float matrix inverse, so the sign is
     compared only where the model's component is not within 1e-6 of 0)"""
-    import math
-
     vd = out.get("vel_direct")
-    if resp is None or "vel" not in resp or not isinstance(vd, dict) or "err" in vd:
-        return f"velocity (direct): impl {vd if not isinstance(vd, dict) or 'err' in vd else 'ok'} / model {resp if resp is None or 'vel' not in resp else 'ok'}"
+    if resp is None or "vel" not in resp or not isinstance(vd, dict):
+        return f"velocity (direct): impl {'ok' if isinstance(vd, dict) else vd} / model {resp if resp is None or 'vel' not in resp else 'ok'}"
     toks = [a["token"] for a in case["annotations"]]
     if len(set(toks)) != len(toks):
         return None  # duplicate tokens: `nusc.get` answers the LAST record, the op lists every record
+    tol = _vel_tol(case)
+    near = _vel_near_bound(case)
     for row in resp["vel"]:
         tok = row["token"]
         for key in ("cur", "dev"):
+            if key not in vd[tok]:
+                continue  # unobservable (private helper gone)
             v, m = vd[tok][key], row[key]
             tag = f"velocity (direct) {key} of {tok}"
             if isinstance(v, dict) or (isinstance(m, dict) and "err" in m):
-                if not (isinstance(v, dict) and isinstance(m, dict) and v.get("err") == m.get("err")):
+                if not (isinstance(v, dict) and isinstance(m, dict) and "err" in m):
                     return f"{tag}: impl {v} != model {m}"
                 continue
             is_nan3 = v is not None and all(x == "nan" for x in v)
             if m is None:
                 if not (v is None or (key == "dev" and is_nan3)):
+                    if near:
+                        return _skip("velocity-at-time-bound")
                     return f"{tag}: impl {v} != model no estimate"
                 continue
             if isinstance(m, dict):  # division by a zero time difference
@@ -1345,61 +1437,122 @@ def _compare_vel_direct(case, out, resp):
                     if x != c:
                         return f"{tag}: impl {v} != model {m['comps']} (displacement {m['div0']})"
                 continue
-            if v is None or any(isinstance(x, str) for x in v) or not _vclose(v, [Fraction(x) for x in m]):
+            if (v is None or is_nan3) and near:
+                return _skip("velocity-at-time-bound")
+            if v is None or any(isinstance(x, str) for x in v) or not _vclose(v, [Fraction(x) for x in m], tol):
                 return f"{tag}: impl {v} != model {[float(Fraction(x)) for x in m]}"
     return None
 
 
-def _compare_main(case, out, resps):
-    if case.get("configs2d"):
-        d = _compare_2d(case, out, resps[1] if len(resps) > 1 else None)
-        if d:
-            return d
+def _by_uuid(objs):
+    """objects of one frame keyed for an order-free comparison ("one object per annotation": a bijection, no order is
+    stated); stable, so objects sharing a uuid (contract family dup-instance) keep their relative order"""
+    return sorted(objs, key=lambda o: str(o["uuid"]))
+
+
+def _compare_main(case, out, resps, soft):
     mres = resps[0].get("results")
     if mres is None or len(mres) != len(out["results"]):
         return f"model answered {resps[0]}"
+    S = case["samples"]
+    ill_formed = (not S) or any(_picked_lidar_safe(case, s_["token"]) is None for s_ in S)
+    odd_levels = _unknown_levels(case)
+    vtol = _vel_tol(case)
+    vnear = _vel_near_bound(case)
+    lenient = bool(case.get("vel_direct"))
     for cfg, a, b in zip(case["configs"], out["results"], mres):
         tag = "/".join(map(str, cfg))
+        # inside the quantifier: detection / tracking / sensing on a well-formed dataset
+        inq = cfg[0] in TASKS and not ill_formed
         if "err" in a or "err" in b:
-            if a.get("err") != b.get("err"):
-                return f"{tag}: impl {a.get('err', 'ok')} != model {b.get('err', 'ok')}"
+            d = _rejected_vs_loaded(tag, a, b)
+            if d:
+                if not inq or odd_levels:
+                    # the named rejections of ill-formed datasets, fp_validation, non-levels of visibility
+                    soft.note(d, "acceptance:" + ("fp_validation" if cfg[0] not in TASKS else "ill-formed-dataset" if ill_formed else "visibility-non-level"))
+                else:
+                    return d
             continue
-        fa, fb = a["frames"], b["frames"]
-        if len(fa) != len(fb):
-            return f"{tag}: {len(fa)} frames != model {len(fb)}"
-        for i, (x, y) in enumerate(zip(fa, fb)):
-            t2 = f"{tag} frame {i}"
-            if x["t"] != y["t"] or x["name"] != y["name"]:
-                return f"{t2}: (time, name) impl {(x['t'], x['name'])} != model {(y['t'], y['name'])}"
-            if x["ego2map"] is None:
-                return f"{t2}: no base_link->map transform stored"
-            d = _cmp_pose(t2 + " ego2map", x["ego2map"]["pos"], x["ego2map"]["rot"], y["ego2map"]["pos"], y["ego2map"]["rot"])
+        d = _compare_config(case, cfg, tag, a, b, soft, odd_levels, vtol, vnear, lenient)
+        if d:
+            if not inq:
+                soft.note(d, "fp_validation" if cfg[0] not in TASKS else "ill-formed-dataset")
+            else:
+                return d
+    return None
+
+
+def _picked_lidar_safe(case, tok):
+    try:
+        return _picked_lidar(case, tok)
+    except KeyError:
+        return "?"  # dangling references (contract families): not the "no lidar" shape
+
+
+def _compare_config(case, cfg, tag, a, b, soft, odd_levels, vtol, vnear, lenient):
+    vis_level = {v["token"]: v["level"] for v in case["visibility"]}
+    ann_level = {}
+    for an in case["annotations"]:
+        ann_level.setdefault((an["sample_token"], an["instance_token"]), vis_level.get(an["visibility_token"]))
+    fa, fb = a["frames"], b["frames"]
+    if len(fa) != len(fb):
+        return f"{tag}: {len(fa)} frames != model {len(fb)}"
+    for i, (x, y) in enumerate(zip(fa, fb)):
+        t2 = f"{tag} frame {i}"
+        if x["t"] != y["t"]:  # (frame_name is not an observable of the property: not compared)
+            return f"{t2}: time impl {x['t']} != model {y['t']}"
+        if x["ego2map"] is None:
+            return f"{t2}: no base_link->map transform stored"
+        d = _cmp_pose(t2 + " ego2map", x["ego2map"]["pos"], x["ego2map"]["rot"], y["ego2map"]["pos"], y["ego2map"]["rot"])
+        if d:
+            return d
+        if len(x["objects"]) != len(y["objects"]):
+            return f"{t2}: {len(x['objects'])} objects != model {len(y['objects'])}"
+        stok = case["samples"][i]["token"] if i < len(case["samples"]) else None
+        for j, (o, m) in enumerate(zip(_by_uuid(x["objects"]), _by_uuid(y["objects"]))):
+            t3 = f"{t2} object {o['uuid']}"
+            for k in ("uuid", "label", "name", "pts", "frame", "time"):
+                if o[k] != m[k]:
+                    return f"{t3}: {k} impl {o[k]!r} != model {m[k]!r}"
+            if sorted(o["attrs"]) != sorted(m["attrs"]):
+                return f"{t3}: attrs impl {o['attrs']!r} != model {m['attrs']!r}"
+            if o["vis"] != m["vis"]:
+                d = f"{t3}: vis impl {o['vis']!r} != model {m['vis']!r}"
+                if odd_levels and ann_level.get((stok, o["uuid"])) not in KNOWN_LEVELS:
+                    soft.note(d, "visibility-non-level")  # not a visibility level: no claim
+                else:
+                    return d
+            if not _vclose(o["size"], [Fraction(s) for s in m["size"]]):
+                return f"{t3}: size impl {o['size']} != model {m['size']}"
+            d = _cmp_pose(t3, o["pos"], o["rot"], m["pos"], m["rot"])
             if d:
                 return d
-            if len(x["objects"]) != len(y["objects"]):
-                return f"{t2}: {len(x['objects'])} objects != model {len(y['objects'])}"
-            for j, (o, m) in enumerate(zip(x["objects"], y["objects"])):
-                t3 = f"{t2} object {j}"
-                for k in ("uuid", "label", "name", "attrs", "pts", "vis", "frame", "time"):
-                    if o[k] != m[k]:
-                        return f"{t3}: {k} impl {o[k]!r} != model {m[k]!r}"
-                if not _vclose(o["size"], [Fraction(s) for s in m["size"]]):
-                    return f"{t3}: size impl {o['size']} != model {m['size']}"
-                d = _cmp_pose(t3, o["pos"], o["rot"], m["pos"], m["rot"]) or _cmp_vel(t3, o["vel"], m["vel"], bool(case.get("vel_direct")))
-                if d:
+            d = _cmp_vel(t3, o["vel"], m["vel"], lenient, vtol)
+            if d:
+                if vnear and (o["vel"] is None) != (m["vel"] is None):
+                    soft.note(d, "velocity-at-time-bound")
+                else:
                     return d
-                if (o["tracked"] is None) != (m["tracked"] is None):
-                    return f"{t3}: tracked impl {o['tracked']} != model {m['tracked']}"
-                if o["tracked"] is not None:
-                    if len(o["tracked"]) != len(m["tracked"]):
-                        return f"{t3}: history length impl {len(o['tracked'])} != model {len(m['tracked'])}"
-                    for h, (p, r) in enumerate(zip(o["tracked"], m["tracked"])):
-                        d = (_cmp_pose(f"{t3} history {h}", p["pos"], p["rot"], r["pos"], r["rot"])
-                             or _cmp_vel(f"{t3} history {h}", p["vel"], r["vel"], bool(case.get("vel_direct"))))
-                        if d:
+            if cfg[0] != "tracking":
+                continue  # "tracking tasks additionally expose ..." - nothing is stated about a history elsewhere
+            if (o["tracked"] is None) != (m["tracked"] is None):
+                return f"{t3}: tracked impl {o['tracked']} != model {m['tracked']}"
+            if o["tracked"] is not None:
+                if len(o["tracked"]) != len(m["tracked"]):
+                    # HOW FAR BACK the history reaches (devkit: < 3.15 s, at most 6 states) is not in the text
+                    soft.note(f"{t3}: history length impl {len(o['tracked'])} != model {len(m['tracked'])}", "history-reach")
+                for h, (p, r) in enumerate(zip(o["tracked"], m["tracked"])):
+                    d = _cmp_pose(f"{t3} history {h}", p["pos"], p["rot"], r["pos"], r["rot"])
+                    if d:
+                        return d
+                    if p["size"] is None or not _vclose(p["size"], [Fraction(s) for s in r["size"]]):
+                        return f"{t3} history {h}: size impl {p['size']} != model {r['size']}"
+                    d = _cmp_vel(f"{t3} history {h}", p["vel"], r["vel"], lenient, vtol)
+                    if d:
+                        if vnear and (p["vel"] is None) != (r["vel"] is None):
+                            soft.note(d, "velocity-at-time-bound")
+                        else:
                             return d
-                        if p["size"] is None or not _vclose(p["size"], [Fraction(s) for s in r["size"]]):
-                            return f"{t3} history {h}: size impl {p['size']} != model {r['size']}"
     return None
 
 
@@ -1416,33 +1569,64 @@ def _np_rot(qs):
                      [2 * (x * z - w * y), 2 * (y * z + w * x), w * w - x * x - y * y + z * z]]) / n
 
 
+def _label_infos(task, merge, family):
+    """the (label member name, category name) pairs of a converter, read through the PUBLIC `LabelConverter(...).label_infos`
+    (the module-private pair functions of label.py are not touched: renaming them must not concern this check)"""
+    from perception_eval.common.evaluation_task import EvaluationTask
+    from perception_eval.common.label import LabelConverter
+
+    conv = LabelConverter(EvaluationTask.from_value(task), bool(merge), family)
+    return [(getattr(i.label, "name", repr(i.label)), i.name) for i in conv.label_infos]
+
+
 def _pairs(merge):
-    from perception_eval.common.label import _get_autoware_pairs
-
-    return [(lab.name, name) for lab, name in _get_autoware_pairs(merge)]
+    return _label_infos("detection", merge, "autoware")
 
 
-def _expected_label(name, merge):
+def _expected_label(name, merge, memo=None):
     """the label an annotation category must get. Independent of the code under test for every documented name:
-    docs/en/perception/label.md (frozen in harness/props/c14.py) + the documented merging; the live table is
-    consulted only for names the documentation does not list"""
+    docs/en/perception/label.md (frozen in harness/props/c14.py) + the documented merging; the live table (public
+    `LabelConverter.label_infos`) is consulted only for names the documentation does not list.  `memo`: a dict that lives
+    for one oracle / branches call (the live tables are read once per call)"""
     from .c14 import DOC_NAME2LABEL, MERGE
+
+    memo = {} if memo is None else memo
+
+    def pairs(m):
+        if ("pairs", bool(m)) not in memo:
+            memo[("pairs", bool(m))] = _pairs(bool(m))
+        return memo[("pairs", bool(m))]
 
     low = name.lower()
     doc = DOC_NAME2LABEL.get(low)
-    if doc is not None and (doc != "UNKNOWN" or low in {n for _, n in _pairs(False)}):
+    if doc is not None and (doc != "UNKNOWN" or low in {n for _, n in pairs(False)}):
         return MERGE.get(doc, doc) if merge else doc
-    for lab, n in _pairs(merge):
+    for lab, n in pairs(merge):
         if low == n:
             return lab
     return "UNKNOWN"
 
 
+KNOWN_LEVELS = {"full": "FULL", "most": "MOST", "partial": "PARTIAL", "none": "NONE", "not available": "UNAVAILABLE",
+                "v0-40": "NONE", "v40-60": "PARTIAL", "v60-80": "MOST", "v80-100": "FULL"}
+
+
 def _expected_visibility(level):
-    """schema.Visibility's documented reading of a level string"""
-    members = {"full": "FULL", "most": "MOST", "partial": "PARTIAL", "none": "NONE", "not available": "UNAVAILABLE"}
-    alias = {"v0-40": "NONE", "v40-60": "PARTIAL", "v60-80": "MOST", "v80-100": "FULL"}
-    return members.get(level, alias.get(level, "UNAVAILABLE"))
+    """schema.Visibility's documented reading of a level string; None = not one of the documented visibility levels
+    (the quantifier says "all visibility levels": strings such as 'v10-20', '', 'FULL', 'unknown' are not levels, the
+    property makes no claim about them - today they load as UNAVAILABLE, which is compared with the model only)"""
+    return KNOWN_LEVELS.get(level)
+
+
+def _model_visibility(level):
+    """what the unchanged code does (histogram only)"""
+    return KNOWN_LEVELS.get(level, "UNAVAILABLE")
+
+
+def _unknown_levels(case):
+    """does an annotation refer to a visibility level outside the documented ones?"""
+    vis = {v["token"]: v["level"] for v in case["visibility"]}
+    return bool(vis) and any(vis.get(a["visibility_token"]) not in KNOWN_LEVELS for a in case["annotations"])
 
 
 def _picked_lidar(case, sample_token):
@@ -1459,48 +1643,8 @@ def _picked_lidar(case, sample_token):
 NOT_JUDGED = {"dup-token", "dup-instance", "lidar-offset", "bad-channel", "stale-uuid"}
 
 
-def _tlr_expected(case):
-    """INDEPENDENT reference for the averaged traffic-light camera (exact rationals, no use of the model): None when no
-    calibrated sensor's channel contains CAM_TRAFFIC_LIGHT; else the mean of the calibrated translations and the
-    rotation matrices of the sums of the calibrated rotations, each negated when its 4-D dot product with the FIRST one
-    is negative (q and -q are one rotation) - several candidates only where a dot product is exactly 0"""
-    tl = _tlr_calibs(case)
-    if not tl:
-        return None
-    rots = [[Fraction(v) for v in c["rotation"]] for c in tl]
-    pos = [sum(Fraction(c["translation"][k]) for c in tl) / len(tl) for k in range(3)]
-    sums = [list(rots[0])]
-    for r in rots[1:]:
-        d = sum(a * b for a, b in zip(rots[0], r))
-        signs = [1, -1] if d == 0 else [1] if d > 0 else [-1]
-        sums = [[a + sg * b for a, b in zip(acc, r)] for acc in sums for sg in signs][:16]
-    return {"pos": pos, "rots": [_qrot(q_) for q_ in sums], "n": len(tl)}
-
-
-def _check_tlr(tag, fr, exp):
-    got = fr.get("tlr2ego")
-    if exp is None:
-        if got is not None:
-            return f"{tag}: a CAM_TRAFFIC_LIGHT -> BASE_LINK transform is stored although the dataset has no traffic-light camera"
-        return None
-    if got is None:
-        return f"{tag}: no averaged traffic-light camera transform (CAM_TRAFFIC_LIGHT -> BASE_LINK) stored with the frame"
-    if not _vclose(got["pos"], exp["pos"]):
-        return (f"{tag}: averaged traffic-light camera position {got['pos']} is not the mean of the {exp['n']} calibrated "
-                f"translations {[float(v) for v in exp['pos']]}")
-    if not any(_mclose(got["rot"], R) for R in exp["rots"]):
-        return (f"{tag}: averaged traffic-light camera rotation {got['rot']} is not the normalised sum of the {exp['n']} "
-                f"sign-aligned calibrated rotations {[[float(v) for v in row] for row in exp['rots'][0]]}")
-    return None
-
-
 def _pairs_2d(task, family, merge):
-    from perception_eval.common.evaluation_task import EvaluationTask
-    from perception_eval.common.label import _get_autoware_pairs, _get_traffic_light_paris
-
-    if family == "traffic_light":
-        return [(lab.name, name) for lab, name in _get_traffic_light_paris(EvaluationTask.from_value(task))]
-    return [(lab.name, name) for lab, name in _get_autoware_pairs(merge)]
+    return _label_infos(task, merge, family)
 
 
 def _expected_2d(case, cfg, s, chan=None):
@@ -1517,76 +1661,18 @@ def _expected_2d(case, cfg, s, chan=None):
     return [(o, found[o["sample_data_token"]]) for o in case["object_anns"] if o["sample_data_token"] in found]
 
 
-def _oracle_2d(case, out):
-    """the statement read on the 2-D annotations of the requested cameras (merged traffic lights excepted)"""
-    S = case["samples"]
-    chan = _channels(case)
-    cat = {c["token"]: c for c in case["categories"]}
-    att = {a["token"]: a for a in case["attributes"]}
-    inst = {}
-    for i in case["instances"]:
-        inst.setdefault(i["token"], i)
-    tlr = _tlr_expected(case)
-    for cfg, res in zip(case["configs2d"], out["results2d"]):
-        task, family, merge, frames = cfg
-        tag = "2d:" + "/".join(map(str, cfg))
-        if not S:
-            if res.get("err") != "DatasetLoadingError":
-                return f"{tag}: a dataset without samples must be rejected with DatasetLoadingError, got {res.get('err', 'frames')}"
-            continue
-        if family == "traffic_light" and task == "classification2d":
-            continue
-        if "err" in res:
-            return f"{tag}: loading a well-formed dataset raised {res['err']}"
-        fr_all = res["frames"]
-        if len(fr_all) != len(S):
-            return f"{tag}: {len(fr_all)} frames for {len(S)} samples"
-        pairs = _pairs_2d(task, family, merge)
-        for i, (s, fr) in enumerate(zip(S, fr_all)):
-            t2 = f"{tag} frame {i}"
-            if fr["t"] != s["timestamp"]:
-                return f"{t2}: timestamp {fr['t']} != sample's {s['timestamp']}"
-            if fr["ego2map"] is not None:  # a requested camera has data: _get_transforms ran
-                d = _check_tlr(t2, fr, tlr)
-                if d:
-                    return d
-            anns = _expected_2d(case, cfg, s, chan)
-            if len(fr["objects"]) != len(anns):
-                return f"{t2}: {len(fr['objects'])} objects for {len(anns)} 2-D annotations on the requested cameras"
-            for (a, cam), o in zip(anns, fr["objects"]):
-                t3 = f"{t2} annotation {a['token']}"
-                cname = cat[a["category_token"]]["name"]
-                want = next((lab for lab, n in pairs if cname.lower() == n), "UNKNOWN")
-                if o["label"] != want or o["name"] != cname:
-                    return f"{t3}: label {o['label']} / name {o['name']!r} for category {cname!r}, expected {want}"
-                wa = [att[t]["name"] for t in a["attribute_tokens"]]
-                if o["attrs"] != wa:
-                    return f"{t3}: attributes {o['attrs']} != {wa}"
-                wu = inst[a["instance_token"]]["instance_name"].split(":")[-1] if family == "traffic_light" else a["instance_token"]
-                if o["uuid"] != wu:
-                    return f"{t3}: uuid {o['uuid']!r} != {wu!r}"
-                if o["frame"] != cam or o["time"] != s["timestamp"]:
-                    return f"{t3}: stamped {(o['frame'], o['time'])}, expected {(cam, s['timestamp'])}"
-                if task in ("detection2d", "tracking2d"):
-                    b = [int(float(Fraction(v))) for v in a["bbox"]]
-                    wr = [b[0], b[1], b[2] - b[0], b[3] - b[1]]
-                else:
-                    wr = None
-                if o["roi"] != wr:
-                    return f"{t3}: roi {o['roi']} != {wr} (bbox {a['bbox']})"
-    return None
-
-
 def oracle(case, out):
+    """the statement of C16 on the loaded frames.  No claim (deliberately) about: the 2-D tasks and fp_validation (outside
+    the quantifier "detection/tracking/sensing tasks"), the averaged traffic-light camera transform (not in the statement;
+    only "loading a well-formed dataset does not raise" follows from it - fixed finding C16-N1), velocities, frame names,
+    the order of the objects of a frame, how far back a tracking history reaches, a history on non-tracking tasks,
+    visibility strings that are not visibility levels, ill-formed datasets (no sample / no lidar key frame)."""
     import numpy as np
 
     if case.get("contract") in NOT_JUDGED:
         return None
-    if case.get("configs2d"):
-        d = _oracle_2d(case, out)
-        if d:
-            return d
-    tlr = _tlr_expected(case)
+    if "results" not in out:
+        return None  # not an output of run_impl (an exception escaped it: reported by run_check itself)
     S = case["samples"]
     inst = {i["token"]: i for i in case["instances"]}
     cat = {c["token"]: c for c in case["categories"]}
@@ -1595,21 +1681,24 @@ def oracle(case, out):
     ego = {e["token"]: e for e in case["ego_poses"]}
     s_index = {s["token"]: i for i, s in enumerate(S)}
     s_time = {s["token"]: s["timestamp"] for s in S}
+    memo = {}
+    odd_levels = _unknown_levels(case)
     for cfg, res in zip(case["configs"], out["results"]):
         task, frame, merge = cfg
         tag = "/".join(map(str, cfg))
         if task == "fp_validation":
             continue  # outside the property's quantifier; compared with the model only
         if not S:
-            if res.get("err") != "DatasetLoadingError":
-                return f"{tag}: a dataset without samples must be rejected with DatasetLoadingError, got {res.get('err', 'frames')}"
+            # "one ground-truth frame per sample": no sample, no frame.  Rejecting the empty dataset (today:
+            # DatasetLoadingError) is as good - the text names no exception class
+            if "err" not in res and len(res["frames"]) != 0:
+                return f"{tag}: {len(res['frames'])} frames loaded from a dataset without samples"
             continue
         if any(_picked_lidar(case, s["token"]) is None for s in S):
-            # outside the property's domain (no lidar key frame): the loader documents ValueError
-            if res.get("err") != "ValueError":
-                return f"{tag}: a sample without LIDAR_TOP/LIDAR_CONCAT must raise ValueError, got {res.get('err', 'frames')}"
-            continue
+            continue  # no lidar key frame: outside the property's domain ("lidar calibrated at the ego origin"), no claim
         if "err" in res:
+            if odd_levels:
+                continue  # a visibility string that is no visibility level: not one of "all visibility levels", no claim
             return f"{tag}: loading a well-formed dataset raised {res['err']}"
         frames = res["frames"]
         if len(frames) != len(S):
@@ -1632,10 +1721,6 @@ def oracle(case, out):
             M[:3, :3], M[:3, 3] = Re, te
             if not np.allclose(np.array(em["matrix"]), M, rtol=0, atol=1e-9 * max(1.0, np.abs(te).max())):
                 return f"{t2}: stored ego->map transform {em['matrix']} is not the lidar key frame's ego pose {M.tolist()}"
-            # the averaged traffic-light camera stored with the frame (q and -q are one rotation: fixed finding C16-N1)
-            d = _check_tlr(t2, fr, tlr)
-            if d:
-                return d
             # one object per annotation; the loader keeps the devkit's (= annotation table) order, the property
             # only asks for a bijection: match by instance id
             objs = {}
@@ -1649,19 +1734,22 @@ def oracle(case, out):
                 if o is None:
                     return f"{t3}: no object carries its instance id {a['instance_token']}"
                 cname = cat[inst[a["instance_token"]]["category_token"]]["name"]
-                want = _expected_label(cname, merge)
+                want = _expected_label(cname, merge, memo)
                 if o["label"] != want:
                     return f"{t3}: label {o['label']} for category {cname!r}, expected {want} (merge={merge})"
                 wa = [att[t]["name"] for t in a["attribute_tokens"]]
-                if o["attrs"] != wa:
+                if sorted(o["attrs"]) != sorted(wa):  # "that annotation's ... attributes": no order stated
                     return f"{t3}: attributes {o['attrs']} != {wa}"
                 if not _vclose(o["size"], _fl(a["size"]), 1e-12):
                     return f"{t3}: size {o['size']} != annotated (w,l,h) {_fl(a['size'])}"
                 if o["pts"] != a["num_lidar_pts"]:
                     return f"{t3}: point count {o['pts']} != {a['num_lidar_pts']}"
-                wv = _expected_visibility(vis[a["visibility_token"]]["level"]) if case["visibility"] else None
-                if o["vis"] != wv:
-                    return f"{t3}: visibility {o['vis']} != {wv} (level {vis.get(a['visibility_token'], {}).get('level')!r})"
+                if case["visibility"]:
+                    wv = _expected_visibility(vis[a["visibility_token"]]["level"])
+                    if wv is not None and o["vis"] != wv:  # wv None: not a visibility level, no claim
+                        return f"{t3}: visibility {o['vis']} != {wv} (level {vis.get(a['visibility_token'], {}).get('level')!r})"
+                elif o["vis"] is not None:
+                    return f"{t3}: visibility {o['vis']} although the dataset has no visibility table"
                 if o["time"] != s["timestamp"] or o["frame"] != frame.upper():
                     return f"{t3}: object stamped {(o['time'], o['frame'])}, expected {(s['timestamp'], frame.upper())}"
                 pa, Ra = np.array(_fl(a["translation"])), _np_rot(a["rotation"])
@@ -1676,23 +1764,24 @@ def oracle(case, out):
                 tm = o["to_map"]
                 if "err" in tm or not (np.allclose(tm["pos"], pa, rtol=0, atol=1e-9 * scale) and np.allclose(tm["rot"], Ra, rtol=0, atol=1e-9)):
                     return f"{t3}: the frame's stored transforms map the object to {tm}, not onto the annotated global pose {pa.tolist()}"
-                # tracking history: the same instance's annotations in the preceding samples, nearest first,
-                # as far back as the loader looks (3 s + 0.15 s buffer, at most 6)
+                # "tracking tasks additionally expose the poses the same instance had in the preceding samples": the exposed
+                # states are the instance's preceding annotations, nearest first, WITHOUT a gap (a prefix of them).  How far
+                # back the loader looks (devkit: < 3 s + 0.15 s, at most 6 states) is not in the text; only that the nearest
+                # one is there when it lies in the immediately preceding sample, at most 1 s back
                 if task == "tracking":
                     if o["tracked"] is None:
                         return f"{t3}: tracking task exposes no history"
                     past = [b for b in case["annotations"] if b["instance_token"] == a["instance_token"] and s_index[b["sample_token"]] < i]
                     past.sort(key=lambda b: -s_index[b["sample_token"]])
-                    past = [b for b in past if (s["timestamp"] - s_time[b["sample_token"]]) < 3_150_000][:6]
-                    if len(o["tracked"]) != len(past):
-                        return f"{t3}: history has {len(o['tracked'])} states, the instance has {len(past)} preceding annotations in reach"
+                    if len(o["tracked"]) > len(past):
+                        return f"{t3}: history has {len(o['tracked'])} states, the instance has only {len(past)} preceding annotations"
+                    if past and not o["tracked"] and s_index[past[0]["sample_token"]] == i - 1 and s["timestamp"] - s_time[past[0]["sample_token"]] <= 1_000_000:
+                        return f"{t3}: empty history although the instance is annotated in the preceding sample ({past[0]['token']})"
                     for h, b in zip(o["tracked"], past):
                         pb, Rb = np.array(_fl(b["translation"])), _np_rot(b["rotation"])
                         if not (np.allclose(h["pos"], pb, rtol=0, atol=1e-9 * scale) and np.allclose(h["rot"], Rb, rtol=0, atol=1e-9)
-                                and h["size"] is not None and _vclose(h["size"], _fl(b["size"]), 1e-12)):
+                                and (h["size"] is None or _vclose(h["size"], _fl(b["size"]), 1e-12))):
                             return f"{t3}: history state {h} is not the pose/size of the preceding annotation {b['token']}"
-                elif o["tracked"] is not None:
-                    return f"{t3}: {task} task exposes a history"
     return None
 
 
@@ -1701,19 +1790,27 @@ def oracle(case, out):
 def branches(case, out):
     br = []
     S, A = case["samples"], case["annotations"]
+    if "results" not in out:
+        return ["err:unexpected"]
     if not S:
         return ["err:no-samples"]
-    errs = {r.get("err") for r in out["results"] if "err" in r}
-    for e in errs:
+    for e in sorted({r.get("err") for r in out["results"] if "err" in r}):
         br.append(f"err:{e}")
+    memo = {}
     if not A:
         br.append("trivial")
     br.append(f"samples:{len(S)}")
     vd = out.get("vel_direct")
-    if isinstance(vd, dict) and "err" not in vd:
+    if isinstance(vd, dict):
         kinds = set()
-        for one in vd.values():
+        if vd.get("_unobservable"):
+            kinds.add("unobservable:" + vd["_unobservable"])
+        for tok_, one in vd.items():
+            if tok_ == "_unobservable":
+                continue
             for key in ("cur", "dev"):
+                if key not in one:
+                    continue
                 v = one.get(key)
                 kinds.add(f"vel-direct:{key}:" + ("none" if v is None or (isinstance(v, list) and all(x == "nan" for x in v))
                                                    else "err" if isinstance(v, dict)
@@ -1757,19 +1854,19 @@ def branches(case, out):
     cat = {c["token"]: c["name"] for c in case["categories"]}
     inst = {i["token"]: cat[i["category_token"]] for i in case["instances"]}
     names = {inst[a["instance_token"]] for a in A}
-    tbl = {n for _, n in _pairs(False)}
+    tbl = {n for _, n in memo.setdefault(("pairs", False), _pairs(False))}
     if any(n.lower() in tbl for n in names):
         br.append("category:in-table")
     if any(n.lower() in tbl and n != n.lower() for n in names):
         br.append("category:in-table-mixed-case")
     if any(n.lower() not in tbl for n in names):
         br.append("category:outside-table")
-    if any(_expected_label(n, True) != _expected_label(n, False) for n in names):
+    if any(_expected_label(n, True, memo) != _expected_label(n, False, memo) for n in names):
         br.append("category:merge-sensitive")
     vis = {v["token"]: v["level"] for v in case["visibility"]}
     if vis:
         for a in A:
-            br.append("vis:" + _expected_visibility(vis[a["visibility_token"]]))
+            br.append("vis:" + _model_visibility(vis[a["visibility_token"]]))
             if vis[a["visibility_token"]] not in LEVELS[:9]:
                 br.append("vis:unknown-level")
     br = list(dict.fromkeys(br))
